@@ -11,7 +11,7 @@ import re
 
 from ..engine import rule, run_property
 from ..model import Undecided
-from ..cfg import (dotted, call_name, is_call, simple_name, unparse, const_value, contains, find_all, enclosing,
+from ..cfg import (same, dotted, call_name, is_call, simple_name, unparse, const_value, contains, find_all, enclosing,
                    enclosing_stmt, implied, all_atoms)
 from ..flow import Canon, Defs, depends, consteval, try_const, NotConst, fmt_all_numeric
 from ..decide import expr_table, table, ret_kind
@@ -132,7 +132,7 @@ def c05a(ctx):
               and isinstance(c.func.value, ast.Constant) and c.func.value.value not in ('',)]:
         a = j.args[0] if j.args else None
         ok = a is not None and isinstance(a, ast.Call) and call_name(a) == 'map' and len(a.args) == 2 and \
-            unparse(a.args[0]) == 'str' and unparse(a.args[1]).endswith('.coord')
+            same(a.args[0], 'str') and unparse(a.args[1]).endswith('.coord')
         ok = ok or (a is not None and isinstance(a, (ast.GeneratorExp, ast.ListComp)) and len(a.generators) == 1 and not a.generators[0].ifs and
                     unparse(a.generators[0].iter).endswith('.coord') and
                     unparse(a.elt) in ('str(%s)' % unparse(a.generators[0].target), "'%%d' %% %s" % unparse(a.generators[0].target)))
@@ -383,7 +383,7 @@ def c05d(ctx):
         ok = bool(fnames) and all(contains(v, lambda x: isinstance(x, ast.Name) and x.id == 'level') for v in fnames)
         ctx.check(ok, '%s._get_level:file-per-level' % cname, 'level database file name is a function of the level', gl)
         keys = [n for n in gl.walk() if isinstance(n, ast.Subscript) and isinstance(n.ctx, ast.Store)]
-        ok = bool(keys) and all(unparse(k.slice) == 'level' for k in keys)
+        ok = bool(keys) and all(same(k.slice, 'level') for k in keys)
         ctx.check(ok, '%s._get_level:cache-key' % cname, 'level cache dictionary is keyed by the level', gl)
 
 
@@ -823,7 +823,7 @@ def c05g(ctx):
 def c05h(ctx):
     fn = ctx.fn(FILE + ':FileCache._store_single_color_tile')
     g = fn.cfg
-    unlinks = [(n, c) for n, c in g.find(lambda x: is_call(x, 'os.unlink', 'os.remove')) if c.args and unparse(c.args[0]) == 'tile_loc']
+    unlinks = [(n, c) for n, c in g.find(lambda x: is_call(x, 'os.unlink', 'os.remove')) if c.args and same(c.args[0], 'tile_loc')]
     links = calls_to(g, Defs(fn.node), 'os.link', 'os.symlink')
     if not links:
         raise Undecided('no os.link/os.symlink in _store_single_color_tile')
@@ -981,13 +981,13 @@ def c05k(ctx):
     ctx.check(len(srt) >= 2, 'dimensions_part:sorted-keys', 'keys are sorted (the directory does not depend on the parameter order)', fn)
     sc = ctx.fn(FILE + ':FileCache._store_single_color_tile')
     g = sc.cfg
-    stores = g.find(lambda x: is_call(x, 'self._store') and len(x.args) >= 2 and unparse(x.args[1]) == 'real_tile_loc')
+    stores = g.find(lambda x: is_call(x, 'self._store') and len(x.args) >= 2 and same(x.args[1], 'real_tile_loc'))
     links = calls_to(g, Defs(sc.node), 'os.link', 'os.symlink')
     ok = bool(stores) and bool(links)
     for n, x in stores:
-        ok = ok and g.guarded(n, lambda at: at.mentions(lambda y: is_call(y, 'os.path.exists') and unparse(y.args[0]) == 'real_tile_loc'), False)
+        ok = ok and g.guarded(n, lambda at: at.mentions(lambda y: is_call(y, 'os.path.exists') and same(y.args[0], 'real_tile_loc')), False)
     # on the "does not exist" edge the store lies before every link
-    edges = g.guard_edges(lambda at: at.mentions(lambda y: is_call(y, 'os.path.exists') and y.args and unparse(y.args[0]) == 'real_tile_loc'), False)
+    edges = g.guard_edges(lambda at: at.mentions(lambda y: is_call(y, 'os.path.exists') and y.args and same(y.args[0], 'real_tile_loc')), False)
     for s, d in edges:
         for n, x in links:
             if stores and g.reaches_avoiding(s, n, avoid={stores[0][0]}) and d == stores[0][0]:
@@ -1072,7 +1072,7 @@ def c05l(ctx):
         ok = len(one) == 1 and bool(taken) and all(asg[one[0]] for asg in taken)
         ctx.check(ok, 'CompactCacheBase.%s:shortcut-guard' % m, 'the shortcut is taken only when exactly one bundle file is involved (%d rows)' % len(tab.rows), f)
         fb = [x for x in f.walk() if is_call(x, 'self.load_tile' if m == 'load_tiles' else 'self.store_tile')]
-        ok = bool(fb) and all(isinstance(enclosing(x, ast.For), ast.For) and unparse(enclosing(x, ast.For).iter) == 'tiles' for x in fb)
+        ok = bool(fb) and all(isinstance(enclosing(x, ast.For), ast.For) and same(enclosing(x, ast.For).iter, 'tiles') for x in fb)
         ctx.check(ok, 'CompactCacheBase.%s:fallback-per-tile' % m, 'otherwise every tile is handled individually', f)
 
 
